@@ -85,6 +85,7 @@ type Arr struct {
 	Leaves []leaf
 	id     int
 	Name   string
+	Orig   *Arr // set on the entry-state copy made for old(...): the array it is a snapshot of
 }
 
 // ---------- smt helpers ----------
